@@ -544,6 +544,8 @@ def hier_objects(ctx, chi, rng, i, subs=None, n_ids=None):
     except Exception as e:  # noqa
         ctx.spec('C17.Hierarchical.raises', False, inp, {'raised': repr(e)[:200]})
         return
+    stable_queries(ctx, 'C17.Hierarchical', hll, inp)
+    stable_queries(ctx, 'C17.Hierarchical.ids', hll, inp, names_fn='get_id')
     nt = hll.n_parameters(exclude_bottom_level=True)
     ctx.spec('C17.Hierarchical.count_eq_names_eq_ids', n == len(names) == len(ids) == len(pref), inp,
              {'n': n, 'names': len(names), 'ids': len(ids)})
@@ -659,6 +661,8 @@ def sbml_objects(ctx, chi, rng, count):
         n = m.n_parameters()
         names = m.parameters()
         ctx.spec(t + '.count_eq_names', n == len(names), inp, {'n': n, 'names': names})
+        stable_queries(ctx, t, m, inp, names_fn='parameters')
+        stable_queries(ctx, t + '.outputs', m, inp, names_fn='outputs', count_fn='n_outputs')
         ctx.spec(t + '.outputs', m.n_outputs() == len(m.outputs()), inp)
         try:
             x = rng.uniform(0.5, 1.5, n)
